@@ -53,6 +53,9 @@ def stepL (c : CS) (l : Line) : CS :=
         else if k.hier = key.hier ∧ k.template = key.template ∧ n = name then
           mism c s!"SPEC[primary-unchanged] CreatePrimary({hname h}, template {l.nat "t"}) gives the same object (name {l.str "name"}) after the {hname h} seed was replaced"
         else c) c
+      -- derived children (templates 20…): another label or context gives another object
+      let c := if l.str "why" == "derived" && c.seen.any (fun (k, _, n) => k.template ≠ key.template && decide ((k.template.getLast?.map (·.toNat)).getD 0 ≥ 20) && n == name) then
+          mism c s!"SPEC[derivation-ignores-input] a derived object (name {l.str "name"}) equals one derived with another label or context" else c
       let c := apply c .other
       if c.seen.any (fun (k, _, _) => k = key) then c else { c with seen := (key, pub, name) :: c.seen }
   | "restart" =>
